@@ -21,14 +21,17 @@ CLAIMED = {
             "Publication order of the writer (data, region length, page index, shared length; index and length in one "
             "pages-write critical section; Release/Acquire), load-length-before-snapshot on every read-only path, page bytes "
             "decoded only while the page table is pinned, pointer reads only while a Reader is live, data before placement "
-            "on relocation, no lock-order cycle that could park a reader. "
+            "on relocation, no lock-order cycle that could park a reader, a cached snapshot filed under the length that "
+            "bounded it. "
             "Not prefix equality of values.", "DESIGN.md §4 C09"),
     "C10": ("lock-discipline rules (same-guard snapshots, typestate claim-before-release, held/not-held at call sites) "
             "over MIR",
             "Structural clauses of isolation: single-guard placement snapshots, reservation pairing and claiming under "
             "the deciding layout guard, layout lock not held across file growth, remap under mmap+file write locks, a "
             "Reader pins its region, reuse gated against readers, in-place growth consults reservations/holes/pending holes, a "
-            "relocation target leaves the hole map before it is reserved, offset-caching sources pin the placement. Not per-thread content equality.", "DESIGN.md §4 C10"),
+            "relocation target leaves the hole map before it is reserved, offset-caching sources pin the placement, id check "
+            "and insert under one regions write guard, the two hole indexes written together, the amount taken from the hole "
+            "map equals the amount claimed (symbolic operand comparison). Not per-thread content equality.", "DESIGN.md §4 C10"),
     "C11": ("whole-program lock-order analysis (held-lock dataflow on MIR, interprocedural summaries, cycle rule)",
             "Absence of feasible lock-order cycles and blocking same-class nestings under writer-preferring RwLocks, "
             "over every acquisition site, body and callback context of rawdb and vecdb; class-level over-approximation.",
@@ -37,45 +40,53 @@ CLAIMED = {
             "compact flushes before punching; punch ranges derive only from a region's metadata tail or promoted holes; "
             "tail punch under that region's metadata write lock with a single-guard snapshot; every punch under layout "
             "and file read locks; KEEP_SIZE; nobody but the growth functions changes a file length; writers hold the metadata "
-            "lock while copying; the hole map is rebuilt in start order at open. Not the page-rounding "
+            "lock while copying; the hole map is rebuilt in start order at open; hole amount conserved; hole indexes "
+            "written together. Not the page-rounding "
             "arithmetic.", "DESIGN.md §4 C12"),
     "C13": ("refusal-atomicity dataflow (mutation provenance + error-variant flow, `?`-branch sensitive, "
             "interprocedural summaries)",
             "For each refusing entry point and its refusal variants: no path reaches an error exit carrying such a "
-            "variant after an observable mutation.", "DESIGN.md §3.C, §4 C13"),
+            "variant after an observable mutation; auxiliary regions are opened only after the header verification; no "
+            "rollback-state snapshot after a failed rollback.", "DESIGN.md §3.C, §4 C13"),
     "C14": ("def-use / switch-arm / who-produces rules over MIR of the import entry points",
             "Version-path agreement between import and forced import, discard arms exactly the four mismatch variants "
             "and only produced by header decoding, auxiliary regions removed on reset, siblings agree, plain import is "
-            "refusal-atomic, a fresh header is written only into an empty region, plain import never reaches the forced path. "
+            "refusal-atomic, a fresh header is written only into an empty region, plain import never reaches the forced path, "
+            "the data region is removed before auxiliary regions, auxiliary regions opened after verification, version "
+            "refusals selected by equality tests, header setters write their own field. "
             "Not that matching data is returned intact.", "DESIGN.md §3.F, §4 C14"),
     "C16": ("refusal-atomicity dataflow + dominance / data-dependence rules + decoder panic-site discharge",
             "Refusal clauses of rollback: failed rollback leaves the vector unchanged, stamp-mismatch test guards every "
             "step of rollback_before, abandoned-future records removed before the new record and not counted in the "
             "retention arithmetic, pruning in numeric stamp order, every Ok return of rollback_before re-bases the rollback "
-            "state and none does after a failure, every slot index of a raw record is validated before any is applied, "
+            "state and none does after a failure, every slot index of a raw record is validated before any is applied, reset "
+            "drops the change records on every path, raw and compressed re-base on the same helper, "
             "change-record parsing cannot panic or over-allocate. Not the count min(k, commits).",
             "DESIGN.md §4 C16"),
     "C17": ("abstract interpretation of `a <= b` facts over MIR discharging every panic / allocation site of the decoders",
             "Decoders never panic, overflow or allocate beyond the input on arbitrary bytes; validity checks present; "
             "bad metadata slots skipped without shifting their neighbours' indices; writer/reader limits agree; raw undo "
-            "validates every index. Not round-trip equality.", "DESIGN.md §3.D, §4 C17"),
+            "validates every index; the restore position of truncated values is computed, not decoded. Not round-trip equality.", "DESIGN.md §3.D, §4 C17"),
     "C18": ("must-precede / constant-operand / data-flow / who-may-call rules over MIR of the open path",
             "Advisory lock taken before any resize/sync/map/read, truncate(false), locked files flow into the long-lived "
             "structs, nobody else opens for writing or unlocks, last drop joins background tasks which hold no counted "
             "handle, the locked descriptor is never duplicated, nothing on the refusal path (incl. drop glue) touches the "
-            "files. OS lock semantics trusted.", "DESIGN.md §4 C18"),
+            "files, the data file is the last of the two locked files to be closed, the last-handle test counts strong "
+            "handles only. OS lock semantics trusted.", "DESIGN.md §4 C18"),
     "C19": ("backward data-dependence (version coverage) + dominance / ordering rules over MIR",
             "Every compute_* method presents a version that depends on every ReadableVec source and cannot return Ok "
             "without validating; validator/truncate/loop order; reset only skippable when empty; header persisted on "
             "every write exit; only the validator updates the computed version; EagerVec reports its computed version to "
-            "dependants. Not the resume index value.",
+            "dependants; the header is persisted whole; own-version changes are refused by an equality test at import. "
+            "Not the resume index value.",
             "DESIGN.md §3.G, §4 C19"),
     "C20": ("bound-class inventory of unchecked read sites (dominating guards + backward slices), publication-site "
             "classification, guard-carrying type rules",
             "No read of mapped/file bytes is bounded only by stored+pushed or by nothing; every publication of the shared "
             "length is of a class that keeps it within what is on disk; sources caching absolute offsets pin the "
             "placement; page entries published after the region covers them and sized from the bytes written; source "
-            "constructors clamp; pointer reads only under a live Reader. Not the arithmetic exactness of offsets.",
+            "constructors clamp; pointer reads only under a live Reader; a Reader pins its region; no direct truncate of a "
+            "compressed data region. Not the arithmetic exactness of offsets.",
             "DESIGN.md §3.E, §4 C20"),
 }
 
